@@ -5,7 +5,6 @@ import (
 	"encoding/json"
 	"fmt"
 	"io"
-	"strings"
 
 	"github.com/wundergraph/graphql-go-tools/v2/pkg/ast"
 	"github.com/wundergraph/graphql-go-tools/v2/pkg/astimport"
@@ -297,13 +296,7 @@ func (j *JsonConverter) importStringValue(s string) ast.Value {
 func (j *JsonConverter) importDeprecatedDirective(reason *string) (ref int) {
 	var args []int
 	if reason != nil {
-		valueRef := j.doc.ImportStringValue([]byte(*reason), strings.Contains(*reason, "\n"))
-		value := ast.Value{
-			Kind: ast.ValueKindString,
-			Ref:  valueRef,
-		}
-		j.doc.AddValue(value)
-		args = append(args, j.doc.ImportArgument(DeprecationReasonArgName, value))
+		args = append(args, j.doc.ImportArgument(DeprecationReasonArgName, j.importStringValue(*reason)))
 	}
 
 	return j.doc.ImportDirective(DeprecatedDirectiveName, args)
